@@ -172,20 +172,22 @@ def run(ctx, rep):
     c07.year_sites(F, rep, rule="R5", only_crate="cgt_mcp")
     fd = [b for b in F.bodies.values() if b.crate == "cgt_mcp" and b.kind == "method" and "Disposal" in b.ret and P.user_written(F, b)]
     for b in fd:
-        tb = Terms(F, b, inline_depth=0)
+        from rules.c08 import _R
         keys = set()
-        for s in b.reachable():
-            t = b.term(s)
-            if t["k"] != "switch":
-                continue
-            c = tb.operand(t["discr"])
-            for x in subterms(c):
-                if isinstance(x, tuple) and x and x[0] in ("cmp", "call"):
-                    txt = show(x)
-                    if ".date" in txt and x[0] == "cmp" and x[1] == "Eq":
-                        keys.add("date")
-                    if ".ticker" in txt and ("eq_ignore_ascii_case" in txt or (x[0] == "cmp" and x[1] == "Eq")):
-                        keys.add("ticker")
+        rg = _R(F).region(b, depth=1)
+        for ex in rg.expansions:
+            hb, ht = ex["body"], ex["tb"]
+            conds = [ht.operand(hb.term(s)["discr"]) for s in hb.reachable() if hb.term(s)["k"] == "switch"]
+            if hb.kind == "closure" and hb.ret == "bool":
+                conds.append(ht.local(0))
+            for c in conds:
+                for x in subterms(c):
+                    if isinstance(x, tuple) and x and x[0] in ("cmp", "call"):
+                        txt = show(x)
+                        if ".date" in txt and x[0] == "cmp" and x[1] == "Eq":
+                            keys.add("date")
+                        if ".ticker" in txt and ("eq_ignore_ascii_case" in txt or (x[0] == "cmp" and x[1] == "Eq")):
+                            keys.add("ticker")
         rep.ob("R5", f"{b.short}:lookup-key", keys == {"date", "ticker"},
                "disposal lookup compares date and ticker (case-insensitively), the key the report groups by" if keys == {"date", "ticker"}
                else f"disposal lookup compares {sorted(keys)}, the report groups by (date, ticker)", b.loc(), key=f"R5:{b.short}:lookup-key")
@@ -213,6 +215,10 @@ def _source_calls(F, b, term, depth=0):
     for x in subterms(term):
         if isinstance(x, tuple) and x and x[0] == "call":
             out.add(x[1])
+            hb = F.bodies.get(x[1])
+            if hb is not None and hb.crate == b.crate and hb.id != b.id and depth < 2 and P.user_written(F, hb):
+                # a same-crate helper that builds the value (`load_fx_cache(folder)`): look at what IT returns
+                out |= _source_calls(F, hb, Terms(F, hb, inline_depth=0).local(0), depth + 1)
         if isinstance(x, tuple) and x and x[0] == "field" and isinstance(x[1], tuple) and x[1] and x[1][0] == "param" and depth == 0:
             fname = x[2]
             selfty = b.local_ty(x[1][1] + 1).lstrip("&").strip()
